@@ -310,6 +310,10 @@ func runFind(data json.RawMessage) vh.Verdict {
 		f.Values = append(f.Values, v)
 	}
 	exact := true // is the arrangement of the feature the one the specification scanned?
+	var look interface {
+		FindValue(key any) (any, bool)
+		FindValues(key any, values []any) []any
+	}
 	switch c.Build {
 	case "plain":
 	case "sorted-as-given":
@@ -325,8 +329,33 @@ func runFind(data json.RawMessage) vh.Verdict {
 	case "sort":
 		f.Sort()
 		exact = false // sort.Sort is not stable: items with equal keys may have been permuted
+	case "replace-sorted-basic", "replace-sorted-overlay":
+		// the feature replaces, in a mutable world, an earlier feature of the same ID that had been Sort()ed;
+		// lookups go through the world's feature
+		var w ingest.MutableWorld = ingest.NewBasicMutableWorld()
+		if c.Build == "replace-sorted-overlay" {
+			w = ingest.NewMutableOverlayWorld(ingest.NewBasicMutableWorld())
+		}
+		g := f.Clone().(*ingest.CollectionFeature)
+		g.Sort()
+		if err := w.AddFeature(g); err != nil {
+			return vh.Fail("harness-world", "%v", err)
+		}
+		if err := w.AddFeature(f); err != nil {
+			return vh.Fail("harness-world", "%v", err)
+		}
+		wrapped := b6.FindCollectionByID(f.CollectionID, w)
+		if wrapped == nil {
+			return vh.Fail("harness-world", "collection feature not found after AddFeature")
+		}
+		look = wrapped
+		f = ingest.NewCollectionFeatureFromWorld(wrapped) // only to read the arrangement below
+		exact = false
 	default:
 		return vh.Fail("harness-json", "bad build %q", c.Build)
+	}
+	if look == nil {
+		look = f
 	}
 	// the arrangement the real feature ended up with (observable through Keys/Values)
 	arranged := make([]item, len(f.Keys))
@@ -347,8 +376,8 @@ func runFind(data json.RawMessage) vh.Verdict {
 		var ok bool
 		var vs []interface{}
 		if pn := vh.Catch(func() {
-			v, ok = f.FindValue(key)
-			vs = f.FindValues(key, nil)
+			v, ok = look.FindValue(key)
+			vs = look.FindValues(key, nil)
 		}); pn != "" {
 			return vh.Verdict{OK: false, Key: "find:" + c.Build + ":panic " + siteOf(pn), Msg: fmt.Sprintf("%s key %s: %s", c.Desc, showTV(p.Key), pn)}
 		}
